@@ -155,6 +155,14 @@ Router::~Router()
         delete obstaclePtr;
         obstacle = m_obstacles.begin();
     }
+
+    // Delete remaining clusters.  They are owned by the router too.
+    while (!clusterRefs.empty())
+    {
+        ClusterRef *clusterPtr = clusterRefs.front();
+        clusterPtr->makeInactive();
+        delete clusterPtr;
+    }
     m_currently_calling_destructors = false;
 
     // Cleanup orphaned orthogonal graph vertices.
@@ -849,6 +857,12 @@ void Router::deleteCluster(ClusterRef *cluster)
     unsigned int pid = cluster->id();
     
     adjustClustersWithDel(pid);
+
+    // The cluster is owned by the router (its destructor may not be called
+    // by anybody else), so it is freed here.
+    m_currently_calling_destructors = true;
+    delete cluster;
+    m_currently_calling_destructors = false;
 }
 
 
